@@ -107,8 +107,9 @@ theorem is_dropped_never_reverts (n : Nat) (ops later : List Op) (i : Nat)
   obtain ⟨evs, he⟩ := hext
   exact (linv_run n (ops ++ later)).droppedDead i (by rw [he]; exact List.mem_append_right _ h) o ho
 
-/-! "A weak pointer never keeps its target alive" is `C02.exactness` (reachability there is
-    strong only) and is pending with it. -/
+/-! "A weak pointer never keeps its target alive" is `C02.exactness` (proved: reachability there is
+    strong reachability only, so a target held only weakly is destructed by two `finish_cycle`
+    calls) together with `C02.shells` / `C02.shell_release` for its shell. -/
 
 /-! ### Non-vacuity -/
 
